@@ -75,13 +75,46 @@ def correspond(ctx):
         if "DATA RACE" in out:
             rp = C.write_replay("C12", "race", {"property": "C12", "kind": "race", "report": out[:6000]})
             violations.append(Violation("c12-race", "data race between Write and the storing side's Read (race detector report in the replay)", rp))
+    # Create through BOTH clients (inline: the read-writer above; gRPC: the stream writer): contents of many sizes
+    # written in pieces (also empty ones) from ONE reused buffer, then read back
+    import importlib
+    c11 = importlib.import_module("props.c11")
+    def hx(x):
+        return x.encode().hex()
+    h = []
+    for i, size in enumerate([9, 100, 2047, 2048, 2049, 3000, 4096, 5000, 32767, 32768, 40000, 100000] + ([700001, 3 * 2**20] if ctx.thorough else [])):
+        k = hx("f%d" % i)
+        h += ["s 0 %s %d create" % (k, 10**12 + size), "g 0 %s" % k]
+        if i % 3 == 0:
+            h += ["b %d RC" % (i + 1), "s %d %s %d create" % (i + 1, k, 10**12 + size + 1), "g %d %s" % (i + 1, k), "c %d" % (i + 1), "g 0 %s" % k]
+    cp = os.path.join(ctx.rd, "c12create.corpus")
+    with open(cp, "w") as f:
+        f.write("\n".join(h) + "\n")
+    r, err = c11.replay_grpc(ctx, "c12create", -1, cp)
+    created = 0
+    if r is None:
+        rp = C.write_replay("C12", "create-run-failed", {"property": "C12", "kind": "impl-run-failed", "output": err[-6000:]})
+        violations.append(Violation("c12-create-run-failed", "Create through the clients failed to run: " + err.strip().split("\n")[-1][:160], rp))
+    else:
+        gops, gimpl, gspec, inline = r
+        iops, iimpl, imodel, ispec, _ = inline
+        for name, ops_, impl_, spec_ in (("inline", iops, iimpl, ispec), ("gRPC", gops, gimpl, gspec)):
+            created += sum(1 for o in ops_ if " create" in o)
+            for j in range(min(len(ops_), len(impl_), len(spec_))):
+                if ops_[j] and impl_[j] != spec_[j]:
+                    payload = {"property": "C12", "kind": "create-history", "client": name, "failed_op": ops_[j], "answer": impl_[j], "expected": spec_[j],
+                               "history": ops_[1:j + 1], "note": "content number 10^12+n = n bytes; written by Create in pieces from one reused buffer"}
+                    rp = C.write_replay("C12", "create-" + name, payload)
+                    violations.append(Violation("c12-create-" + name, "Create through the %s client, history of %d ops: `%s` answered `%s`, expected `%s` (Close returned nil, the content is not the concatenation of the writes)"
+                                                % (name, j, ops_[j][:60], impl_[j][:60], spec_[j][:60]), rp))
+                    break
     distinct = len(set((tuple(r["script"] or []), tuple(r["trace"])) for r in runs))
     nontriv = len(set((tuple(r["script"] or []), tuple(r["trace"])) for r in runs if len(set(r["sched"])) > 1))
     cov = {"evaluations": len(runs), "distinct_nontrivial": nontriv,
            "rule": "enforced schedules of writer (Write sizes from {0,1,3,5,32767,32768,32769}, then Close) and storing goroutine on the real readWriter, stateless DFS over actor choices at operation boundaries and hook points; distinct = different event trace; non-trivial = both actors stepped; the two repaired witness schedules are replayed first",
            "traces_validated_against_impl": len(runs), "distribution": {"distinct_traces": distinct},
            "samples": [{"script": r["script"], "schedule": " ".join(r["sched"]), "consumed": r["consumed"], "expected": r["expected"], "hang": r["hang"]} for r in runs[:4]],
-           "stress_rounds": (stress or {}).get("completed", 0), "stress_race_detector": race,
+           "stress_rounds": (stress or {}).get("completed", 0), "stress_race_detector": race, "creates_through_clients": created,
            "summary": "%d enforced schedules + %d free-running rounds: Close returned, content = concatenation" % (len(runs), (stress or {}).get("completed", 0))}
     return {"violations": violations, "coverage": cov}
 
